@@ -13,7 +13,7 @@ PROP = "C18"
 FAIL_OVERRIDE = {"varintDictBuild": -1, "varintDictGetStats": -1}
 # failure edges that continue with a *correct* result - each confirmed by reading (DESIGN App. C.1)
 CONFIRMED_FALLBACKS = {
-    ("varintAdaptiveCountUnique", "malloc#1"): "sampling buffer: on failure the function returns `count` (all unique); the estimate only steers which lossless codec is selected",
+    ("varintAdaptiveCountUnique", "malloc#1"): "sampling buffer: on failure the function returns count-1 ('not all unique'), which can never satisfy the selector's BITMAP guard uniqueCount == count (C06-A3); every other selectable codec is lossless whatever the estimate",
     ("varintAdaptiveCountUnique", "malloc#2"): "sort buffer: same as malloc#1",
     ("varintBitmapAddRange", "malloc#1"): "single-run shortcut: on failure nothing has been modified and the function falls through to element-wise insertion, which yields the same set",
     ("varintBitmapRemove", "bitmapToArray_#1"): "failed shrink BITMAP->ARRAY: the element has already been removed from the bitmap container, which stays valid; returning true is correct",
@@ -51,6 +51,12 @@ def analyse(mod, run, label, fallbacks=CONFIRMED_FALLBACKS, overrides=FAIL_OVERR
                 if bad and key in fallbacks:
                     run.ok("R2-failure-reported", {"fn": fn.name, "site": s.name(), "at": where, "confirmed_fallback": fallbacks[key]})
                     fallback = True
+                    if fn.name == "varintAdaptiveCountUnique":
+                        # the fallback is only correct as long as it cannot make the BITMAP guard `uniqueCount == count` true
+                        cp = fn.param_index("count"); fi_ = w.fi(fn).prepare()
+                        claims = [t for (t, v) in bad if v is not None and fi_.lin(v) == fi_.lin({"k": "arg", "v": cp, "t": "i64"})]
+                        run.check(not claims, "R2-fallback-does-not-claim-uniqueness", {"fn": fn.name, "site": s.name()},
+                                  Finding("R2-fallback-claims-all-unique", fn.name, s.name(), "fallback", "on allocation failure varintAdaptiveCountUnique returns `count` (all values unique): the selector then chooses the set-only BITMAP encoding for data that may contain duplicates", loc=where))
                 elif bad:
                     fallback = True
                     t, v = bad[0]
